@@ -13,7 +13,10 @@
     untouched paths keep their value, field order, no panic;
   * §3 idempotence of `$set $unset $min $max $addToSet $pull $pullAll` at a resolved path and for
     single-operator single-path updates through `Apply`;
-  * §4 rejection is total, `Match`/`Apply` never panic;
+  * §4 rejection is total, `Match`/`Apply` never panic; §4b an update in which two literal operator
+    paths (incl. `$rename` targets) are equal or prefix-related is rejected up front, for every document
+    (`conflict_rejected`, `accepted_conflict_free`) — the former FINDING `conflict-accepted`
+    (a conflict escaped when the earlier operator was a no-op), fixed in /repo by `checkPaths`;
   * §5 the change log is conflict free; recorded changes hold in the result for the single-write
     operators (`_partial`: the multi-operator statement is FALSE in the code — see the witness there).
 
@@ -327,10 +330,93 @@ section Tests
 #guard isErr (Apply ctx0 docB [] [])
 end Tests
 
+/-! ## §4b Conflicting operator paths: the update is rejected as a whole, up front
+
+`updatePaths u` lists the literal paths of the update in the order `checkPaths` visits them: for every
+top-level entry whose value is a document, for every field of it, the field key, followed — under the
+key "$rename" with a string value — by the rename target.  Two paths are prefix-related when, as
+segment lists (`splitPath`), one is a prefix of the other (equal paths included). -/
+
+/-- every field key of every operator document is a literal path of the update … -/
+theorem updatePaths_key_mem (u : Doc) (op : String) (fields : List (String × V)) (key : String) (v : V)
+    (ho : (op, V.doc fields) ∈ u) (hf : (key, v) ∈ fields) : key ∈ updatePaths u :=
+  Lungo.updatePaths_key_mem u op fields key v ho hf
+
+/-- … and so is every (string) `$rename` target. -/
+theorem updatePaths_rename_target_mem (u : Doc) (fields : List (String × V)) (key target : String)
+    (ho : ("$rename", V.doc fields) ∈ u) (hf : (key, V.str target) ∈ fields) : target ∈ updatePaths u :=
+  Lungo.updatePaths_rename_target_mem u fields key target ho hf
+
+/-- `pathsConflict_iff`: the executable test of `checkPaths`, started on the empty path tree, fires
+    exactly when two paths of the list, at positions i < j, are prefix-related. -/
+theorem pathsConflict_iff (ps : List String) :
+    pathsConflict [] ps = true ↔
+      ∃ (i j : Nat) (p q : String), i < j ∧ ps[i]? = some p ∧ ps[j]? = some q ∧
+        (isPrefixOf (splitPath p) (splitPath q) = true ∨ isPrefixOf (splitPath q) (splitPath p) = true) :=
+  Lungo.pathsConflict_iff ps
+
+/-- `conflict_rejected`: for ALL contexts, documents, updates and array filters: if two literal
+    paths of the update are prefix-related (equal included), `Apply` rejects the update — whether or
+    not any operator would have changed the document (MongoDB's up-front conflict error). -/
+theorem conflict_rejected (c : ACtx) (d u : Doc) (afs : List Doc)
+    (h : ∃ (i j : Nat) (p q : String), i < j ∧
+      (updatePaths u)[i]? = some p ∧ (updatePaths u)[j]? = some q ∧
+      (isPrefixOf (splitPath p) (splitPath q) = true ∨ isPrefixOf (splitPath q) (splitPath p) = true)) :
+    Apply c d u afs = .error .err :=
+  Apply_conflict c d u afs ((Lungo.pathsConflict_iff _).mpr h)
+
+/-- `accepted_conflict_free` (contrapositive): an accepted update has no two prefix-related
+    literal paths. -/
+theorem accepted_conflict_free (c : ACtx) (d u : Doc) (afs : List Doc) (r : Doc × List (String × V))
+    (h : Apply c d u afs = .ok r) (i j : Nat) (p q : String) (hij : i < j)
+    (hp : (updatePaths u)[i]? = some p) (hq : (updatePaths u)[j]? = some q) :
+    isPrefixOf (splitPath p) (splitPath q) = false ∧ isPrefixOf (splitPath q) (splitPath p) = false :=
+  Apply_ok_unrelated c d u afs r h i j p q hij hp hq
+
+/-- the same as a `List.Pairwise` statement (convenient with sublists / membership). -/
+theorem accepted_paths_pairwise (c : ACtx) (d u : Doc) (afs : List Doc) (r : Doc × List (String × V))
+    (h : Apply c d u afs = .ok r) :
+    (updatePaths u).Pairwise fun a b => related (splitPath a) (splitPath b) = false :=
+  Apply_ok_pairwise c d u afs r h
+
+section Tests
+-- TEST: the old WITNESS of finding `conflict-accepted` — `$rename` of an absent field is a no-op, so
+-- nothing was recorded for "a.x.c"/"x" and the later `$inc` of "x" was accepted: now rejected
+def docNoAXC : Doc := [("x", .i32 5), ("a", .doc [("y", .i32 1)])]
+#guard Get docNoAXC "a.x.c" == .missing
+#guard updatePaths [("$rename", .doc [("a.x.c", .str "x")]), ("$inc", .doc [("x", .i32 (-1))])] == ["a.x.c", "x", "x"]
+#guard isErr (Apply ctx0 docNoAXC [("$rename", .doc [("a.x.c", .str "x")]), ("$inc", .doc [("x", .i32 (-1))])] [])
+#guard isErr (Apply ctx0 [] [("$rename", .doc [("a.x.c", .str "x")]), ("$inc", .doc [("x", .i32 (-1))])] [])
+-- TEST: each operator alone is accepted on that document (the hypothesis of `accepted_conflict_free` is met)
+#guard okDoc (Apply ctx0 docNoAXC [("$rename", .doc [("a.x.c", .str "x")])] []) == some docNoAXC
+#guard okDoc (Apply ctx0 docNoAXC [("$inc", .doc [("x", .i32 (-1))])] []) == some [("x", .i32 4), ("a", .doc [("y", .i32 1)])]
+-- TEST: other no-op conflicts: `$unset` of an absent field / `$max` that keeps the value, then a write below / at it
+#guard isErr (Apply ctx0 docNoAXC [("$unset", .doc [("q", .i32 1)]), ("$set", .doc [("q.r", .i32 1)])] [])
+#guard isErr (Apply ctx0 docNoAXC [("$max", .doc [("x", .i32 0)]), ("$set", .doc [("x", .i32 7)])] [])
+#guard isErr (Apply ctx0 docNoAXC [("$setOnInsert", .doc [("a", .i32 0)]), ("$set", .doc [("a.y", .i32 7)])] [])
+-- TEST: the `$rename` target counts only under "$rename" and only when it is a string
+#guard updatePaths [("$set", .doc [("p", .str "x")]), ("$rename", .doc [("q", .i32 1)]), ("$inc", .i32 1)] == ["p", "q"]
+#guard okDoc (Apply ctx0 docNoAXC [("$set", .doc [("p", .str "x")]), ("$inc", .doc [("x", .i32 1)])] [])
+  == some [("x", .i32 6), ("a", .doc [("y", .i32 1)]), ("p", .str "x")]
+-- TEST: sibling paths and paths that only share a string prefix are not related
+#guard okDoc (Apply ctx0 docNoAXC [("$set", .doc [("a.y", .i32 2), ("a.yy", .i32 3)]), ("$inc", .doc [("a.z", .i32 1)])] [])
+  == some [("x", .i32 5), ("a", .doc [("y", .i32 2), ("yy", .i32 3), ("z", .i32 1)])]
+-- TEST: pathsConflict on the hypotheses' shape
+#guard pathsConflict [] ["a.x.c", "x", "x"] && pathsConflict [] ["a.b", "c", "a"] && pathsConflict [] ["a", "c", "a.b"]
+#guard !pathsConflict [] ["a.b", "a.c", "ab", "b.a"] && !pathsConflict [] []
+end Tests
+
+-- non-vacuity of `conflict_rejected`: an update meeting the hypothesis (positions 1 < 2 hold "x", "x");
+-- evaluated, strings do not reduce in the kernel
+#guard (updatePaths [("$rename", .doc [("a.x.c", .str "x")]), ("$inc", .doc [("x", .i32 (-1))])])[1]? == some "x" &&
+  (updatePaths [("$rename", .doc [("a.x.c", .str "x")]), ("$inc", .doc [("x", .i32 (-1))])])[2]? == some "x" &&
+  isPrefixOf (splitPath "x") (splitPath "x")
+
 /-! ## §5 The change log -/
 
 /-- `record_conflict_free`: after any successful `Apply` the recorded paths are pairwise not
-    prefix-related (as segment lists). -/
+    prefix-related (as segment lists).  (The literal paths of the update are pairwise unrelated too:
+    `accepted_conflict_free`, §4b — `Record` alone did not give that when an operator recorded nothing.) -/
 theorem record_conflict_free (c : ACtx) (d u : Doc) (afs : List Doc) (d' : Doc)
     (ch : List (String × V)) (h : Apply c d u afs = .ok (d', ch)) : ConflictFree ch :=
   Apply_cf c d u afs d' ch h
